@@ -47,4 +47,6 @@ Deliver in {out}/ :
   - patch.diff : `git -C {wt} diff` of the source change ONLY (not the demo)
   - demo/ : the demonstration file(s), with the path inside the repo they must be copied to noted in meta.json
   - meta.json : {{"property": "{pid}", "summary": "...what was changed...", "needs": "...what it needs in order to manifest...", "demo_files": {{"<file in demo/>": "<destination path relative to repo root>"}}, "demo_cmd": "go test ... (run from repo root)", "tests_run": "commands you ran for (b) and their result", "touched_files": [...]}}
-Verify yourself before finishing: with patch applied the demo fails; revert the patch with `git diff -- . ':!*_demo_test.go' > {out}/patch.diff; git apply -R {out}/patch.diff` (NEVER use `git stash`: the stash is shared with other agents' worktrees) and the demo passes; re-apply with `git apply {out}/patch.diff`; existing tests pass with the patch. Leave the worktree with the patch applied and the demo file in place. Keep the change minimal (a few lines). Report briefly what you did.""")
+Verify yourself before finishing: with patch applied the demo fails; revert the patch with `git diff -- . ':!*_demo_test.go' > {out}/patch.diff; git apply -R {out}/patch.diff` (NEVER use `git stash`: the stash is shared with other agents' worktrees) and the demo passes; re-apply with `git apply {out}/patch.diff`; existing tests pass with the patch. Leave the worktree with the patch applied and the demo file in place. Keep the change minimal (a few lines). Report briefly what you did.
+
+Separately from the seeded change: if, while reading the UNMODIFIED code, you notice behaviour that already seems to violate the property as stated (independently of your change), describe it in a few lines in {out}/observations.md and at the end of your report under the heading "Observations on the unmodified tree" (file, function, the input/sequence you think fails). Do not spend time proving it and do not seed it.""")
